@@ -814,7 +814,7 @@ func c28(r *vkit.Run) {
 	if n := r.Counter("not_run_after_repeated_hangs"); n > 0 {
 		r.Inconclusive(fmt.Sprintf("bfe left %d connections open until the client abandoned them (%v of silence); the remaining %d cases were not run", hungTotal.Load(), c28Grace, n))
 	}
-	if r.Replay == "" {
+	if r.Replay == "" && r.Counter("not_run_after_repeated_hangs") == 0 {
 		for _, m := range c28BodiedMethods {
 			for _, f := range []string{"cl", "chunked"} {
 				if r.Counter("bodied_followed_in_sync:"+m+"-"+f) == 0 {
